@@ -650,10 +650,17 @@ def run(ctx):
         ctx.notes.append("%d planned histories not run: FD phase reached its %g s budget" % (len(unexplored), total_budget))
     if skipped:
         ctx.notes.append("%d of %d histories skipped because a real step did not converge or the history exceeded %g s" % (len(skipped), len(plan), per_history))
+    # failures that are the recorded open finding F30 (sub-divided inelastic step) are reported through the
+    # known-findings channel; the obligation is about everything else
+    known_sigs = {k.get("signature") for k in common.known_findings() if k.get("status") == "open" and k.get("property") == "C11"}
+    found_new = [f for f in found if "c11:" + f[0] not in known_sigs]
+    ctx.extra["fd_failures_matching_open_findings"] = len(found) - len(found_new)
     ctx.obligation("property predicate: stiffness == central difference of force and > 0 at every step of %d real "
-                   "histories" % len(plan), not found and len(skipped) + len(unexplored) <= len(plan) // 4,
-                   ("%d failures; first: %s" % (len(found), found[0][1])) if found else
-                   "all hold; worst rel. difference elastic %.2e, inelastic %.2e; %d skipped" % (worst_el, worst_in, len(skipped)))
+                   "histories (steps covered by the open finding F30 excepted and reported as KNOWN-FINDING)" % len(plan),
+                   not found_new and len(skipped) + len(unexplored) <= len(plan) // 4,
+                   ("%d failures; first: %s" % (len(found_new), found_new[0][1])) if found_new else
+                   "all hold; worst rel. difference elastic %.2e, inelastic %.2e (inelastic figure includes %d sub-divided steps "
+                   "of finding F30); %d skipped" % (worst_el, worst_in, len(found) - len(found_new), len(skipped)))
 
     # ---------------- outcomes ----------------
     by = {}
